@@ -191,6 +191,7 @@ pub fn incr_main(job: &Value) -> i32 {
             std::fs::write(fp, text.as_str().unwrap()).unwrap();
         }
         writeln!(out, "{}", json!({"e": "hist", "id": id, "model": h["model"]})).unwrap();
+        out.flush().unwrap();
         for (k, op) in h["ops"].as_array().unwrap().iter().enumerate() {
             let kind = op["op"].as_str().unwrap();
             let mut rec = json!({"e": kind, "k": k, "m": op["m"]});
@@ -251,6 +252,7 @@ pub fn incr_main(job: &Value) -> i32 {
                 _ => {}
             }
             writeln!(out, "{}", rec).unwrap();
+            out.flush().unwrap();
         }
         let _ = std::fs::remove_dir_all(&root);
     }
